@@ -73,6 +73,9 @@ pub struct Doc {
     /// (number of filler code lines, true = before the nodes / false = after them): large inputs
     #[serde(default)]
     pub pad: Option<(u32, bool)>,
+    /// lines end in CR LF instead of LF
+    #[serde(default)]
+    pub crlf: bool,
 }
 
 pub const DEFAULT_DS: &str = "<!-- <";
@@ -255,9 +258,11 @@ impl Doc {
         if let Some((n, false)) = self.pad {
             filler(&mut lines, n);
         }
-        let mut s = lines.join("\n");
+        let nl = if self.crlf { "\r\n" } else { "\n" };
+        // (a multi-line tag contains bare LFs of its own; under CRLF they are converted too)
+        let mut s = lines.join("\n").replace('\n', nl);
         if self.final_newline && !lines.is_empty() {
-            s.push('\n');
+            s.push_str(nl);
         }
         s
     }
@@ -461,6 +466,11 @@ impl Doc {
             d.final_newline = true;
             out.push(d);
         }
+        if self.crlf {
+            let mut d = self.clone();
+            d.crlf = false;
+            out.push(d);
+        }
         if let Some((n, at_start)) = self.pad {
             let mut d = self.clone();
             d.pad = None;
@@ -518,6 +528,8 @@ pub struct GenParams<'a> {
     pub default_config_eighths: u64,
     /// about 1 % of the documents get hundreds of kilobytes of filler lines
     pub large_inputs: bool,
+    /// probability (in 1/8ths) of CR LF line endings
+    pub crlf_eighths: u64,
 }
 
 pub struct DocGen<'a, 'b> {
@@ -713,5 +725,6 @@ pub fn generate(rng: &mut Rng, p: &GenParams) -> Doc {
     }
     let final_newline = g.rng.chance(5, 6);
     let pad = if p.large_inputs && g.rng.chance(1, 100) { Some((*g.rng.pick(&[300u32, 2_000, 6_000]), g.rng.chance(1, 2))) } else { None };
-    Doc { ds, de, tl_tag: tl, rm_tag: rm, nodes, final_newline, pad }
+    let crlf = p.crlf_eighths > 0 && g.rng.chance(p.crlf_eighths, 8);
+    Doc { ds, de, tl_tag: tl, rm_tag: rm, nodes, final_newline, pad, crlf }
 }
